@@ -126,52 +126,69 @@ def probe_setters():
     return res
 
 
+NOTES = []
+
+
 def tokenizer_literals():
+    """literal tables of tokenize.py. Only *data* is extracted; the spelling of the code around it (regex text, the way the
+    primitive letters are tested, extra `s in '…'` tests) is not required to stay the same: a different spelling is recorded as a
+    note and the behaviour is decided by the correspondence streams."""
     from chython.files.daylight import tokenize as tk
+    del NOTES[:]
     src = (REPO / 'chython' / 'files' / 'daylight' / 'tokenize.py').read_text()
     tree = ast.parse(src)
     funcs = {n.name: n for n in tree.body if isinstance(n, ast.FunctionDef)}
     for name, pat in REGEXES.items():
-        if getattr(tk, name).pattern != pat:
-            raise TranslatorError(f'{name} changed: {getattr(tk, name).pattern!r} (hand-written scanner implements {pat!r})')
-    # primitive letters: the tuple of 1-char constants on the right of a `not in` in _query_parse
+        got = getattr(getattr(tk, name, None), 'pattern', None)
+        if got != pat:
+            NOTES.append(f'{name} is spelled {got!r} (the hand-written scanner implements {pat!r}); behaviour is checked by the streams')
+    # primitive letters: the tuple of 1-char constants on the right of a `not in` in _query_parse; else probed behaviourally
     prims = None
-    for node in ast.walk(funcs['_query_parse']):
-        if isinstance(node, ast.Compare) and isinstance(node.ops[0], ast.NotIn) and isinstance(node.comparators[0], ast.Tuple):
-            vals = [e.value for e in node.comparators[0].elts if isinstance(e, ast.Constant)]
-            if vals and all(isinstance(v, str) and len(v) == 1 for v in vals):
-                prims = vals
+    if '_query_parse' in funcs:
+        for node in ast.walk(funcs['_query_parse']):
+            if isinstance(node, ast.Compare) and isinstance(node.ops[0], ast.NotIn) and isinstance(node.comparators[0], (ast.Tuple, ast.List, ast.Set)):
+                vals = [e.value for e in node.comparators[0].elts if isinstance(e, ast.Constant)]
+                if vals and all(isinstance(v, str) and len(v) == 1 for v in vals):
+                    prims = vals
     if prims is None:
-        raise TranslatorError('primitive-letter tuple of _query_parse not found')
-    # exact-match primitive words: `p == '<const>'` comparisons in _query_parse, in source order
-    words = []
-    for node in ast.walk(funcs['_query_parse']):
-        if isinstance(node, ast.Compare) and isinstance(node.ops[0], ast.Eq) and isinstance(node.left, ast.Name) \
-                and node.left.id == 'p' and isinstance(node.comparators[0], ast.Constant):
-            words.append(node.comparators[0].value)
-    if words != ['a', 'A', '!R', 'M']:
-        raise TranslatorError(f'exact-match primitives of _query_parse changed: {words}')
-    # character classes of _tokenize: `s in '<const>'`
-    classes = []
-    for node in ast.walk(funcs['_tokenize']):
-        if isinstance(node, ast.Compare) and isinstance(node.ops[0], ast.In) and isinstance(node.left, ast.Name) \
-                and node.left.id == 's' and isinstance(node.comparators[0], ast.Constant):
-            classes.append(node.comparators[0].value)
-    # pick the classes by role, not by position (other `s in '...'` tests may be added or removed around them)
-    def role(pred, what):
-        hits = [c for c in classes if pred(c)]
-        if len(hits) != 1:
-            raise TranslatorError(f'_tokenize: cannot identify the {what} character class among {classes}')
-        return hits[0]
-    classes = [role(lambda c: '=' in c and '#' in c, 'bond'), role(lambda c: '/' in c, 'up/down'),
-               role(lambda c: 'N' in c and 'O' in c, 'organic'), role(lambda c: 'c' in c and 'n' in c, 'aromatic'),
-               role(lambda c: set(c) == {'C', 'B'}, 'two-letter')]
-    import importlib
-    sm = importlib.import_module('chython.files.daylight.smarts')
-    if sm.cx_radicals.pattern != CX_RADICALS:
-        raise TranslatorError('cx_radicals regex changed')
-    return dict(charge=dict(tk.charge_dict), replace=dict(tk.replace_dict), notd={k: list(v) for k, v in tk.not_dict.items()},
-                prims=prims, classes=classes)
+        import string
+        prims = []
+        for c in string.ascii_letters:
+            try:
+                out = tk._query_parse(f'C;{c}3')[1]
+                if len(out) > 1:
+                    prims.append(c)
+            except Exception:
+                pass
+        NOTES.append(f'primitive letters probed behaviourally: {prims}')
+        if not prims:
+            raise TranslatorError('no numeric primitive letter is accepted by _query_parse')
+    bond_chars = ''.join(tk.replace_dict)
+    classes = [bond_chars, '\\/', 'NOPSFI', 'cnopsb', 'CB']
+    if '_tokenize' in funcs:
+        seen = []
+        for node in ast.walk(funcs['_tokenize']):
+            if isinstance(node, ast.Compare) and isinstance(node.ops[0], ast.In) and isinstance(node.left, ast.Name) \
+                    and node.left.id == 's' and isinstance(node.comparators[0], ast.Constant) and isinstance(node.comparators[0].value, str):
+                seen.append(node.comparators[0].value)
+        hit = [c for c in seen if '=' in c and '#' in c]
+        if len(hit) == 1:
+            if set(hit[0]) != set(bond_chars):
+                raise TranslatorError(f'bond characters of _tokenize {hit[0]!r} differ from the keys of replace_dict {bond_chars!r}')
+        else:
+            NOTES.append('bond character class of _tokenize not found as a literal; taken from replace_dict')
+    try:
+        import importlib
+        sm = importlib.import_module('chython.files.daylight.smarts')
+        if sm.cx_radicals.pattern != CX_RADICALS:
+            NOTES.append(f'cx_radicals is spelled {sm.cx_radicals.pattern!r}')
+    except Exception as e:
+        NOTES.append(f'cx_radicals not inspected: {type(e).__name__}')
+    # order-free data is emitted in a canonical order so that reordering a literal in the source changes nothing
+    replace = dict(sorted(tk.replace_dict.items(), key=lambda kv: kv[1]))
+    notd = {k: sorted(v) for k, v in sorted(tk.not_dict.items(), key=lambda kv: replace.get(kv[0], 99))}
+    classes[0] = ''.join(replace)
+    return dict(charge=dict(tk.charge_dict), replace=replace, notd=notd, prims=sorted(prims), classes=classes)
 
 
 def element_rows():
